@@ -60,6 +60,46 @@ theorem cap_growth_entitled (cfg : Cfg) (st : St) (pfx : Str) (c : Cmd) (ch : Op
       · exact body_caps cfg st pfx _ hc hr
       · intro p hp x hx; exact Or.inl ⟨p.2, hp, hx⟩
 
+/-- the sender was entitled: the guard of the capability-add command held (`Granted`), the sender
+is not ignored, and the command gate let the message pass (for the Admin commands: `-admin` does
+not apply to the sender, `admin_gate`) -/
+def Entitled (cfg : Cfg) (st : St) (pfx : Str) (c : Cmd) (ch : Option Str) (id : Nat) (x : Str) : Prop :=
+  Granted cfg st pfx c id x ∧ st.ignored pfx = false ∧ allowed st pfx c ch = true
+
+/-- `cap_growth_entitled` with the command gate: a capability appears only through a
+capability-add command whose guard held *and* which passed the gate -/
+theorem cap_growth_gated (cfg : Cfg) (st : St) (pfx : Str) (c : Cmd) (ch : Option Str) (hc : c ≠ .flushReload) (hr : c ≠ .reload) :
+    ∀ p ∈ (step cfg st pfx c ch).1.users, ∀ x ∈ p.2.caps,
+      (∃ u, (p.1, u) ∈ st.users ∧ x ∈ u.caps) ∨ Entitled cfg st pfx c ch p.1 x := by
+  have hev : ∀ (c : Cmd), (c = .flushAll ∨ ∃ on, c = .upkeep on) → ∀ id x, ¬ Granted cfg st pfx c id x := by
+    intro c hcc id x hg
+    rcases hg with ⟨_, _, e, _⟩ | ⟨_, _, _, _, e, _⟩ <;> rcases hcc with rfl | ⟨_, rfl⟩ <;> cases e
+  unfold step
+  cases c with
+  | flushReload => exact absurd rfl hc
+  | reload => exact absurd rfl hr
+  | flushAll =>
+    intro p hp x hx
+    rcases body_caps cfg st pfx _ hc hr p hp x hx with h | h
+    · exact Or.inl h
+    · exact absurd h (hev _ (Or.inl rfl) _ _)
+  | upkeep on =>
+    intro p hp x hx
+    rcases body_caps cfg st pfx _ hc hr p hp x hx with h | h
+    · exact Or.inl h
+    · exact absurd h (hev _ (Or.inr ⟨on, rfl⟩) _ _)
+  | _ =>
+    simp only []
+    split
+    · intro p hp x hx; exact Or.inl ⟨p.2, hp, hx⟩
+    · split
+      · rename_i hig hal
+        intro p hp x hx
+        rcases body_caps cfg st pfx _ hc hr p hp x hx with h | h
+        · exact Or.inl h
+        · exact Or.inr ⟨h, by simpa using hig, hal⟩
+      · intro p hp x hx; exact Or.inl ⟨p.2, hp, hx⟩
+
 theorem ownerS_lower : C03.toLower C03.ownerS = C03.ownerS := by decide
 
 /-- `owner` itself can never be granted -/
@@ -997,6 +1037,89 @@ theorem history_safe_all_ev (cfg : Cfg) (hcfg : HashSafe cfg) (hist : List Ev) (
       obtain ⟨h1, h2⟩ := ih (st.fileOrder uo co) h' (fun e he => hp e (by simp [he])) hg
       exact ⟨fun id hid => h1 id hid, h2⟩
 
+/-! ## the statement of the property over whole histories -/
+
+/-- somewhere along the history, an entitled sender granted `x` to account `id` -/
+def GrantedIn (cfg : Cfg) : St → List Ev → Nat → Str → Prop
+  | _, [], _, _ => False
+  | st, .cmd pfx c :: rest, id, x =>
+    Entitled cfg st pfx c none id x ∨ GrantedIn cfg (step cfg st pfx c none).1 rest id x
+  | st, .cmdIn ch pfx c :: rest, id, x =>
+    (match c.inChannel ch with
+     | some c' => Entitled cfg st pfx c' (some ch) id x ∨ GrantedIn cfg (step cfg st pfx c' (some ch)).1 rest id x
+     | none => GrantedIn cfg st rest id x)
+  | st, .order uo co :: rest, id, x => GrantedIn cfg (st.fileOrder uo co) rest id x
+
+/-- one command step: capabilities are old or granted by an entitled sender (reloads: old) -/
+theorem step_caps_all (cfg : Cfg) (st : St) (pfx : Str) (c : Cmd) (ch : Option Str) (h : Inv3 st) :
+    ∀ p ∈ (step cfg st pfx c ch).1.users, ∀ x ∈ p.2.caps,
+      (∃ u, (p.1, u) ∈ st.users ∧ x ∈ u.caps) ∨ Entitled cfg st pfx c ch p.1 x := by
+  by_cases hc : c = .flushReload
+  · subst hc
+    intro p hp x hx
+    exact Or.inl (reload_caps_sub cfg st h.inv p hp x hx)
+  by_cases hr : c = .reload
+  · subst hr
+    intro p hp x hx
+    exact Or.inl (reloadNoFlush_caps_sub cfg st h.inv h.file p hp x hx)
+  · exact cap_growth_gated cfg st pfx c ch hc hr
+
+/-- **The property, over whole histories.**  Along any finite history of messages (private or in
+a channel, from any hostmasks, any argument strings), flush+reload points, reloads that read the
+files as they are, `world.flush`, upkeep and set-order events — satisfying the run condition
+`GoodRunEv` — every capability an account holds at the end it held at the beginning, or at some
+point of the history it was granted to that account by a capability-add command whose guard held
+for the sender and which passed the command gate. -/
+theorem history_caps_entitled (cfg : Cfg) (hcfg : HashSafe cfg) (hist : List Ev) (st : St) (h : Inv3 st)
+    (hp : ∀ e ∈ hist, e.prefixOk) (hg : GoodRunEv cfg st hist) :
+    ∀ p ∈ (runEv cfg st hist).users, ∀ x ∈ p.2.caps,
+      (∃ u, (p.1, u) ∈ st.users ∧ x ∈ u.caps) ∨ GrantedIn cfg st hist p.1 x := by
+  induction hist generalizing st with
+  | nil => intro p hp' x hx; exact Or.inl ⟨p.2, hp', hx⟩
+  | cons e rest ih =>
+    cases e with
+    | cmd pfx c =>
+      obtain ⟨hq, hg'⟩ := hg
+      obtain ⟨_, h'⟩ := step_safe_all cfg hcfg st pfx (hp (.cmd pfx c) (by simp)) c none h hq
+      intro p hp' x hx
+      rcases ih (step cfg st pfx c none).1 h' (fun e he => hp e (by simp [he])) hg' p hp' x hx with ⟨u, hu, hxu⟩ | hgr
+      · rcases step_caps_all cfg st pfx c none h (p.1, u) hu x hxu with h1 | h1
+        · exact Or.inl h1
+        · exact Or.inr (Or.inl h1)
+      · exact Or.inr (Or.inr hgr)
+    | cmdIn ch pfx c =>
+      have hpfx : C16.noBreak pfx := hp (.cmdIn ch pfx c) (by simp)
+      cases hc : c.inChannel ch with
+      | none =>
+        have e1 : stepEv cfg st (.cmdIn ch pfx c) = st := by unfold stepEv; simp only [hc]
+        have hg' : GoodRunEv cfg st rest := by
+          unfold GoodRunEv at hg; simp only [hc] at hg; exact hg
+        intro p hp' x hx
+        unfold runEv at hp'
+        rw [e1] at hp'
+        rcases ih st h (fun e he => hp e (by simp [he])) hg' p hp' x hx with h1 | h1
+        · exact Or.inl h1
+        · right; unfold GrantedIn; simp only [hc]; exact h1
+      | some c' =>
+        have e1 : stepEv cfg st (.cmdIn ch pfx c) = (step cfg st pfx c' (some ch)).1 := by unfold stepEv; simp only [hc]
+        have hg2 : Quiet cfg st pfx c' (some ch) ∧ GoodRunEv cfg (step cfg st pfx c' (some ch)).1 rest := by
+          unfold GoodRunEv at hg; simp only [hc] at hg; exact hg
+        obtain ⟨_, h'⟩ := step_safe_all cfg hcfg st pfx hpfx c' (some ch) h hg2.1
+        intro p hp' x hx
+        unfold runEv at hp'
+        rw [e1] at hp'
+        rcases ih _ h' (fun e he => hp e (by simp [he])) hg2.2 p hp' x hx with ⟨u, hu, hxu⟩ | hgr
+        · rcases step_caps_all cfg st pfx c' (some ch) h (p.1, u) hu x hxu with h1 | h1
+          · exact Or.inl h1
+          · right; unfold GrantedIn; simp only [hc]; exact Or.inl h1
+        · right; unfold GrantedIn; simp only [hc]; exact Or.inr hgr
+    | order uo co =>
+      have h' : Inv3 (st.fileOrder uo co) := ⟨fileOrder_inv uo co h.inv, h.ids, fileOrder_fileOk uo co h.file⟩
+      intro p hp' x hx
+      rcases ih (st.fileOrder uo co) h' (fun e he => hp e (by simp [he])) hg p hp' x hx with h1 | h1
+      · exact Or.inl h1
+      · exact Or.inr h1
+
 /-! ## non-vacuity and the two repaired defects -/
 
 /-- a line-safe stand-in for the salted hash (only used by the examples below) -/
@@ -1094,5 +1217,15 @@ example :
         (fun p => (p.1, p.2.caps)) = [(1, [s "owner"]), (2, [s "admin"]), (3, [s "--foo"])]) ∧
     -- an order that is not a permutation of the saved set is ignored (and reported by `fileOrderOk`)
     ((runEv cfg0 (flushU st0) hist).fileOrderOk [(3, [s "-foo", s "owner"])] [] = false) := by decide
+
+/-- `Entitled` is satisfiable: the admin `adm` may hand `admin` (which they hold) to `eve` … -/
+example : Entitled cfg0 st0 (s "adm!a@admin.host") (.capAdd (s "eve") (s "Admin")) none 3 (s "admin") :=
+  ⟨Or.inl ⟨s "eve", s "Admin", rfl, by decide, by decide, by decide, Or.inr (by decide)⟩, by decide, by decide⟩
+
+/-- … while the same request from `eve` herself (to whom the default `-admin` applies) does not
+pass the gate, in private or in a channel -/
+example : allowed st0 (s "eve!e@evil.host") (.capAdd (s "eve") (s "Admin")) none = false ∧
+          allowed st0 (s "eve!e@evil.host") (.capAdd (s "eve") (s "Admin")) (some (s "#chan")) = false ∧
+          allowed st0 (s "adm!a@admin.host") (.capAdd (s "eve") (s "Admin")) (some (s "#chan")) = true := by decide
 
 end C02
